@@ -425,6 +425,14 @@ func ruleC13ReadsHitBackend(c *Ctx) {
 			}
 			name := trimPkgDirs(shortName(f))
 			n := 0
+			// a helper of the package that performs the read before it hands anything back
+			delegated := map[*ssa.Function]bool{}
+			for _, h := range readHelpersOf(f) {
+				if readsBeforeValue(h, isRead) {
+					delegated[h] = true
+					c.FuncsAnalysed[shortName(h)] = true
+				}
+			}
 			for _, r := range returnsOf(f) {
 				if len(r.Results) != 2 || isNilValue(returnedValue(r, 0)) {
 					continue
@@ -432,6 +440,9 @@ func ruleC13ReadsHitBackend(c *Ctx) {
 				n++
 				found, tr := pathSearchAt(f.Blocks[0], 0, func(i ssa.Instruction) pathAction {
 					if isRead(i) {
+						return pathStop
+					}
+					if _, isCall := i.(*ssa.Call); isCall && delegated[staticCallee(i)] {
 						return pathStop
 					}
 					if i == ssa.Instruction(r) {
